@@ -2,7 +2,8 @@
     Model: Wire/Marshal.v (typed API marshal_t, dynamic API marshal_p; push_variant is
     marshal_t on a VVariant). Specification: Wire/SpecEnc.v (spec_enc). *)
 From RB Require Import Base.Prelude Sig.Types Sig.Validator Wire.Bytes Wire.Align Wire.Text Wire.Value Wire.SpecEnc
-  Wire.Marshal Wire.Relabel Wire.MarshalProofs Wire.Limits Wire.MarshalEncodable Wire.MarshalAccept.
+  Wire.Marshal Wire.Relabel Wire.MarshalProofs Wire.Limits Wire.MarshalEncodable Wire.MarshalAccept
+  Wire.HasSig Wire.Body Wire.MarshalAny.
 
 (* typed API: whenever marshalling succeeds, the bytes appended are THE encoding of the value at the
    position given by what was written before (any buffer, both byte orders), with each descriptor
@@ -78,3 +79,63 @@ Theorem C02_param_exactly : forall be depth v c, typed v ->
        /\ arrays_within be (len (mbuf c)) v = true).
 Proof. exact marshal_p_exactly. Qed.
 Print Assumptions C02_param_exactly.
+
+(** ** every Param tree: no typing hypothesis. A Param tree is a [val]; [payloads_ok] is what Rust's Base enum
+    guarantees about leaves by construction (a fixed-width leaf holds a number of its width, a boolean 0/1, a text
+    leaf holds text). Ill-typed trees ARE expressible through the dynamic API (free element lists, public fields of
+    params::Variant); the marshaller itself enforces typing: validate_array / validate_dict, and since fix 35497e7
+    the variant's declared signature against its value's. *)
+Theorem C02_param_typed : forall be v d c c', payloads_ok v = true -> marshal_p be d v c = (c', true) -> typed v.
+Proof. exact marshal_p_typed'. Qed.
+Print Assumptions C02_param_typed.
+
+Theorem C02_param_bytes_any : forall be v d c c', payloads_ok v = true -> strings_small v = true ->
+  marshal_p be d v c = (c', true) -> snd (relabel v (mfds c)) <= 2 ^ 32 ->
+  mbuf c' = mbuf c ++ spec_enc be (len (mbuf c)) (fst (relabel v (mfds c)))
+  /\ mfds c' = snd (relabel v (mfds c)).
+Proof. exact marshal_p_bytes_any. Qed.
+Print Assumptions C02_param_bytes_any.
+
+Theorem C02_param_exactly_any : forall be depth v c, payloads_ok v = true ->
+  (snd (marshal_p be depth v c) = true
+   <-> typed v /\ leaves_ok v = true /\ variant_sigs_ok v = true /\ nest_ok depth v = true
+       /\ arrays_within be (len (mbuf c)) v = true).
+Proof. exact marshal_p_exactly_any. Qed.
+Print Assumptions C02_param_exactly_any.
+
+(* the public entry points marshal_param / marshal_container_param (push_old_param goes through them): the shape
+   check of fix 5849d4e first; success additionally needs that no struct is empty *)
+Theorem C02_param_top_exactly : forall be v c, payloads_ok v = true ->
+  (snd (marshal_param_top be v c) = true
+   <-> typed v /\ no_empty_struct v = true /\ leaves_ok v = true /\ variant_sigs_ok v = true
+       /\ nest_ok 0 v = true /\ arrays_within be (len (mbuf c)) v = true).
+Proof. exact marshal_param_top_exactly. Qed.
+Print Assumptions C02_param_top_exactly.
+
+(* a failed entry check (empty struct, or a container at nesting level 64) has written nothing *)
+Theorem C02_param_top_check_unchanged : forall be v c, shape_ok 0 v = false -> marshal_param_top be v c = (c, false).
+Proof. exact marshal_param_top_unchanged. Qed.
+Print Assumptions C02_param_top_check_unchanged.
+
+Theorem C02_param_top_bytes_any : forall be v c c', payloads_ok v = true -> strings_small v = true ->
+  marshal_param_top be v c = (c', true) -> snd (relabel v (mfds c)) <= 2 ^ 32 ->
+  mbuf c' = mbuf c ++ spec_enc be (len (mbuf c)) (fst (relabel v (mfds c)))
+  /\ mfds c' = snd (relabel v (mfds c)).
+Proof. exact marshal_param_top_bytes_any. Qed.
+Print Assumptions C02_param_top_bytes_any.
+
+(* a struct without fields anywhere in the tree (array elements, struct fields, dict values, variant values): refused,
+   nothing written - where Param::sig() used to panic *)
+Theorem C02_param_empty_struct_refused : forall be v c, no_empty_struct v = false -> marshal_param_top be v c = (c, false).
+Proof. exact param_empty_struct_refused. Qed.
+Print Assumptions C02_param_empty_struct_refused.
+
+(* bytes AND signature: a successful push appends to the body signature exactly the printed type of the value whose
+   encoding it appended (typed API: the Rust type's signature, which is the value's type; dynamic API: Param::sig()) *)
+Theorem C02_signature : forall b b',
+  (forall t v, wt v t = true -> push_param b (t, v) = (b', true) ->
+     bsig b' = bsig b ++ to_str (ty_of v) /\ wt v (ty_of v) = true)
+  /\ (forall v, payloads_ok v = true -> push_old_param b v = (b', true) ->
+     bsig b' = bsig b ++ to_str (ty_of v) /\ wt v (ty_of v) = true).
+Proof. exact push_sig_is_type. Qed.
+Print Assumptions C02_signature.
